@@ -4,7 +4,7 @@ open Goflow Goflow.Gen Goflow.Gen.Sflow Goflow.Spec.Sflow
 
 def genCase : G (List String) := do
   let d ← genDatagram
-  pure ["call sf " ++ hexOf (encode d), "expect res ok", "expect sf " ++ (expected d).toD.render]
+  pure ["call sf " ++ hexOf (encode d), "expect res ok", "expect sf " ++ (expected d).toD.render, "expect rawjson ok"]
 
 def gen (n : Nat) : G (List String) := do
   let mut out : List String := []
